@@ -94,7 +94,7 @@ def krylov_and_svd_outputs(chk):
             chk.add(ob)
 
 
-def sliced_one(anns, kr, kc):
+def sliced_one(anns, kr, kc, prop="C05"):
     """get_annotations(Sliced): the REAL rule (through the real Sliced constructor) on symbolic slices / index arrays of a square operator that carries true
     declarations.  Whatever is reported must be SelfAdjoint / PSD only, and then rows and columns select the SAME index sequence (same length, same source index at
     every position): S = P^T A P for a selection matrix P, which is Hermitian / PSD whenever A is."""
@@ -122,7 +122,7 @@ def sliced_one(anns, kr, kc):
             goals.append(("reported SelfAdjoint / PSD: rows and columns select the same index sequence (principal submatrix in the same order)",
                           z3.And(lr.term == lc.term, z3.Implies(z3.And(j >= 0, j < lr.term), ir == ic))))
         return goals
-    return K.run_paths(f"C05/get_annotations(Sliced)[rows={kr};cols={kc};declared={'+'.join(anns)}]", "cola.annotations.get_annotations", thunk,
+    return K.run_paths(f"{prop}/get_annotations(Sliced)[rows={kr};cols={kc};declared={'+'.join(anns)}]", "cola.annotations.get_annotations", thunk,
                        dict(engine="direct", failing_input_found=False, input=f"Sliced of a {anns} operator with {kr} rows and {kc} columns"))
 
 
